@@ -79,6 +79,13 @@ pub open spec fn smul(k: nat, p: P4) -> P4 decreases k {
     if k == 0 { id4() } else { te_add(smul((k - 1) as nat, p), p) }
 }
 
+// conventional generator = decode(8) (spec "Costs and alternatives / generator"); affine coordinates
+pub open spec fn gen_p4() -> P4 {
+    P4 { x: 4959445789346820725352484487855828915252512307947624787834978378872129235627int,
+         y: 6060471950081851567114691557659790004756535011754163002297540472747064943288int,
+         z: 1,
+         t: 7709528722369014828560854854815397945854484030754980890329689855465844419067int }
+}
 // ---- Encoding (spec "Encoding", steps 1-5)
 pub open spec fn spec_encode(p: P4) -> int {
     let amd = fsub(A_(), D_());
